@@ -5,7 +5,7 @@ META = {
     "title": "Every reported observable equals its definition on the current state",
     "technique": "static analysis: provenance of the (state, Hamiltonian, time, results) handed to callbacks on "
                  "every path of both drivers, event order in the noisy driver, expression-shape checks of the "
-                 "built-in implementations",
+                 "built-in implementations; dispatch table of observable class → implementation; QR gauge-move idiom table; polynomial normal form of the normalised state",
     "design_ref": "DESIGN.md §5 C13",
     "explanation": "ROLE-callback/ONCE: in both drivers every callback receives the run's config, the filter's "
                    "time, the current state (emu-mps: 1/‖ψ‖·ψ on the plain and on the dark-atom branch) and the "
